@@ -41,8 +41,17 @@ Record tmpl := {
   t_comp_isinstance : bool;    (* composite setter and constructor test isinstance *)
   t_union_clear_others : bool; (* union setter sets every OTHER option to None ... *)
   t_union_clear_after : bool;  (* ... after the value has been validated and stored *)
-  t_union_ctor_count : bool    (* union constructor: counts the given options, > 1 raises ValueError *)
+  t_union_ctor_count : bool;   (* union constructor: counts the given options, > 1 raises ValueError *)
+  t_arr_precheck : bool        (* assign_array, conversion path, integer element types: the source is range-checked against the
+                                  field's inclusive_value_range BEFORE np.array(src, dtype) casts it (shape of the F-PY-ARRWRAP fix) *)
 }.
+
+Definition set_precheck (b : bool) (T : tmpl) : tmpl :=
+  {| t_int_check := t_int_check T; t_float_check := t_float_check T; t_float_nonfinite_ok := t_float_nonfinite_ok T;
+     t_float_check_below := t_float_check_below T; t_cmp_fixed := t_cmp_fixed T; t_cmp_var := t_cmp_var T;
+     t_len_bytes := t_len_bytes T; t_len_nd := t_len_nd T; t_len_slow := t_len_slow T; t_bytes_max_w := t_bytes_max_w T;
+     t_comp_isinstance := t_comp_isinstance T; t_union_clear_others := t_union_clear_others T;
+     t_union_clear_after := t_union_clear_after T; t_union_ctor_count := t_union_ctor_count T; t_arr_precheck := b |}.
 
 (* ---------------------------------------------------------------- values *)
 Inductive pyval :=
@@ -142,6 +151,13 @@ Definition f_trunc (x : N) : Z :=
   let E := f_E x in
   let v := if (0 <=? E)%Z then N.shiftl M (Z.to_N E) else N.shiftr M (Z.to_N (- E)) in
   if f_neg x then (- Z.of_N v)%Z else Z.of_N v.
+
+(* floor / ceiling of a finite double (exact) *)
+Definition f_is_integer (x : N) : bool :=
+  let E := f_E x in
+  if (0 <=? E)%Z then true else N.land (f_M x) (2 ^ Z.to_N (- E) - 1) =? 0.
+Definition f_floor (x : N) : Z := if f_neg x && negb (f_is_integer x) then (f_trunc x - 1)%Z else f_trunc x.
+Definition f_ceil (x : N) : Z := if negb (f_neg x) && negb (f_is_integer x) then (f_trunc x + 1)%Z else f_trunc x.
 
 Definition f_one : N := 1023 * 2 ^ 52.
 (* largest finite float16 / float32 as doubles: 65504.0 and 3.4028234663852886e38 (pydsdl inclusive_value_range) *)
@@ -261,8 +277,29 @@ Definition conv_leaf (dt : dtype) (x : pyval) : res pyval :=
   | DObj => Ok x
   end.
 
+(* ASSUMED NumPy 2 behaviour of np.array(x, dt) (validated by the correspondence run, not verified):
+   - an element that is a Python int / float / bool (lists, scalars) is converted by `conv_leaf`: a Python int outside the range
+     of an integer dtype raises OverflowError (a Python float is truncated first);
+   - the elements of an ndarray of ANOTHER dtype are converted by a C cast (`conv_elem`): integers wrap around modulo 2^w
+     (two's complement for signed dtypes), nothing is raised. *)
+Definition wrap_int (dt : dtype) (z : Z) : Z :=
+  match dt with
+  | DU w => z mod 2 ^ w
+  | DS w => (z + 2 ^ (w - 1)) mod 2 ^ w - 2 ^ (w - 1)
+  | _ => z
+  end.
+Definition conv_elem (dt : dtype) (x : pyval) : res pyval :=
+  match dt, x with
+  | DU _, PInt z | DS _, PInt z => Ok (PInt (wrap_int dt z))
+  | DU _, PFloat f | DS _, PFloat f =>
+      if f_isfinite f then Ok (PInt (wrap_int dt (f_trunc f))) else conv_leaf dt x    (* (uintN_t)(int64_t)f for |f| < 2^63 *)
+  | _, _ => conv_leaf dt x
+  end.
 Definition np_array (dt : dtype) (x : pyval) : res (list pyval) :=
-  sl <- np_flat x ;; mapM (conv_leaf dt) (snd sl).
+  match x with
+  | PArr _ l => mapM (conv_elem dt) l
+  | _ => sl <- np_flat x ;; mapM (conv_leaf dt) (snd sl)
+  end.
 
 (* ------------------------------------------------------------ element checks of the conformant variant *)
 Definition elem_in_dsdl_range (e : etype) (x : pyval) : bool :=
@@ -295,6 +332,25 @@ Definition float_leaf_ok (e : etype) (x : pyval) : bool :=
 Definition float_src_ok (e : etype) (y : pyval) : bool :=
   q || match np_flat y with Ok sl => forallb (float_leaf_ok e) (snd sl) | Raise _ => true end.
 
+(* shape of the F-PY-ARRWRAP fix, conversion path, integer element types: `np.asarray(src)` (natural dtype) must lie within the
+   field's inclusive_value_range before it is cast; non-numeric leaves are left to the cast, which raises on them *)
+Definition int_leaf_ok (e : etype) (x : pyval) : bool :=
+  match e with
+  | EPrim (KU w) | EPrim (KS w) =>
+      let k := match e with EPrim k => k | _ => KBool end in
+      match x with
+      | PInt z => int_in_range k z
+      | PFloat f =>
+          if f_isnan f then false
+          else if f_isfinite f then int_in_range k (f_floor f) && int_in_range k (f_ceil f)
+          else false
+      | _ => true
+      end
+  | _ => true
+  end.
+Definition int_src_ok (e : etype) (y : pyval) : bool :=
+  negb (t_arr_precheck T) || match np_flat y with Ok sl => forallb (int_leaf_ok e) (snd sl) | Raise _ => true end.
+
 Definition cmp_len (c : cmpop) (n cap : nat) : bool :=
   match c with
   | CmpEq => Nat.eqb n cap
@@ -315,9 +371,11 @@ Definition assign_array (fixed : bool) (cap : nat) (strlike : bool) (e : etype) 
   let chk (l : list pyval) : res pyval :=
       if q || forallb (elem_in_dsdl_range e) l then Ok (PArr dt l) else Raise ValueError in
   let slow (y : pyval) : res pyval :=
-      l <- np_array dt y ;;                                                (* np.array(src, dt).flatten() *)
-      if negb (t_len_slow T) || cmp_len cmp (length l) cap
-      then (if float_src_ok e y then chk l else Raise ValueError)
+      if int_src_ok e y then
+        l <- np_array dt y ;;                                              (* np.array(src, dt).flatten() *)
+        if negb (t_len_slow T) || cmp_len cmp (length l) cap
+        then (if float_src_ok e y then chk l else Raise ValueError)
+        else Raise ValueError
       else Raise ValueError in
   match x1 with
   | PBytes s =>
